@@ -250,6 +250,9 @@ type opPlan struct {
 	BaseLocal bool     `json:",omitempty"` // make sure the base stage's object is in the local store
 	NewFile   bool     `json:",omitempty"` // conflict on a new file instead of a path of the history
 	Stages    []string `json:",omitempty"`
+	// template 10 (recentfault.go)
+	AlwaysViaC  bool   `json:",omitempty"` // lfs.fetchrecentalways=true through git -c instead of the repository configuration
+	FaultVictim string `json:",omitempty"` // recent-ref-tip | recent-previous-version: a persistent GET fault is armed for one such object
 	// refetch shapes in otherwise fault-free scenarios: the server fails for good for one or two objects
 	FaultTail bool   `json:",omitempty"`
 	FaultKind string `json:",omitempty"`
@@ -559,7 +562,7 @@ func (p plan) class() string {
 func main() {
 	run := evid.New("C04", "exploration")
 	defer sbx.RemoveBase()
-	run.Rule = "per source repository (histgen: branches, merges, orphan branches, tags, add/modify/delete/rename/duplicate, files moving in and out of LFS tracking, nested .gitattributes, exec bits, empty files, symlinks; pushed through the pre-push hook to a bare repository + fake LFS server) 8 consumer scenario templates: {smudging clone, skip-smudge clone + fetch + lfs checkout, skip clone + edits + pull, configured include/exclude overridden by -I/-X, alternates reference store, pre-seeded local objects, clone --no-checkout + seed + checkout + ref switch, free mix} x random {branch|tag, lfs.url via -c/--config/HOME, filter-process|one-shot smudge, lfs.fetchinclude/exclude via HOME/-c/--config, 11 pattern forms, -I/-X given/empty/absent, fetch refs, lfs checkout path arguments, GIT_LFS_SKIP_SMUDGE on git checkout, 9 working-tree mutation kinds before pull / lfs checkout} x transient server faults in one scenario out of three: for one or two victim objects that the step reached first (clone, first checkout, git checkout, lfs fetch, lfs pull) is about to download, the storage GET is answered {503 k times with k <= lfs.transfer.maxretries, 503 maxretries+1 times, 503 for ever, connection reset once or twice, body cut short once or twice} or the batch API reports the object missing once; lfs.transfer.maxretries in {1,2,8} delivered via HOME/-c/--config; later steps (incl. lfs checkout) run with what is left of the script and with the objects a failed step left behind. A command that exits 0 is judged exactly as without faults; a command that exits non-zero while faults were injected is counted, not judged (except never-clobber / fetch-leaves-worktree-alone, which hold for failures too). Rare command shapes run as the LAST operation of a sample of the scenarios (every second scenario, rotating by seed; every scenario of the source repositories with recent commit dates = one in four, commit ages from {0.3,1.5,2.5,5,9,12,30} days plus three 7-9 h old commits on main that rewrite the same two paths; every source also has a commit reachable from a tag only): fetch --all [origin [refs|sha]] (also --json / --dry-run), fetch --recent and lfs.fetchrecentalways with lfs.fetchrecentrefsdays / lfs.fetchrecentcommitsdays in {unset,0,1,3,7} and lfs.fetchrecentremoterefs in {unset,true,false} (+ -I/-X, refs, --json), fetch origin with three arguments incl. a raw commit id, fetch --refetch (in two of three cases with a server that fails for good for 1-2 of the objects), fetch --dry-run, fetch --json, and `git lfs checkout --to <file inside|outside the work tree> --base|--ours|--theirs <path>` in every stage order during a real modify/modify merge conflict on an LFS path of the history or a new file, followed by the usage errors (--to without a stage, two stages). Besides the 8 templates every source repository runs 2 (thorough: 3) scenarios of template 8 (refstore.go), 'objects only in the reference store, nothing linked yet': {clone --reference with the lfs filters unset, GIT_LFS_SKIP_SMUDGE clone --reference, alternates entry appended after the clone, reference repository receives its LFS objects after the clone, clone --no-checkout --reference + git reset --hard} x {full, partial reference store} x first operation {lfs checkout, lfs checkout <paths>, lfs pull, lfs fetch (+ lfs checkout), git checkout <other ref>}, rotating by seed, against a well-behaved server. Template 9 (wide.go): 2 (thorough: 10) dedicated source repositories whose single tree holds 30-150 LFS files with content deliberately duplicated across paths far apart in tree order (the first paths and the last ones, different directories, triples), each with 8 (12) skip-smudge consumers: git lfs pull (plain, with a working-tree mutation, restricted by -I/-X and then completed) or lfs fetch + lfs checkout, with lfs.transfer.batchsize in {1,2,3} x lfs.concurrenttransfers in {1,8} x local store {middle half of the tree local, random half local, empty} x storage GET answers delayed {not, 2 ms each, 0-5 ms pseudo-randomly, 4 ms from the third on}, so that downloads complete while the tree scan of the same pull is still running; two consumers in six meet the fault kind exhausted-object-in-failed-batch instead (faults.go): lfs.transfer.maxretries 1 or 2, batchsize 2 or 3, maxretrydelay 1, at least six objects to download, the GETs of the first one or two objects in tree order answered 503 until their retry budget is spent, batch answers delayed 10 ms, and the batch request that lists such an exhausted object together with other objects answered 429 (once per exhausted object). Class = (clone mode, ref kind, filter driver, store incl. how it came to be unlinked / the wide-tree coordinates, configured filter shape, sequence of operations with their option shapes incl. the tail shape and its windows, fault kind + maxretries + step at which it was armed)."
+	run.Rule = "per source repository (histgen: branches, merges, orphan branches, tags, add/modify/delete/rename/duplicate, files moving in and out of LFS tracking, nested .gitattributes, exec bits, empty files, symlinks; pushed through the pre-push hook to a bare repository + fake LFS server) 8 consumer scenario templates: {smudging clone, skip-smudge clone + fetch + lfs checkout, skip clone + edits + pull, configured include/exclude overridden by -I/-X, alternates reference store, pre-seeded local objects, clone --no-checkout + seed + checkout + ref switch, free mix} x random {branch|tag, lfs.url via -c/--config/HOME, filter-process|one-shot smudge, lfs.fetchinclude/exclude via HOME/-c/--config, 11 pattern forms, -I/-X given/empty/absent, fetch refs, lfs checkout path arguments, GIT_LFS_SKIP_SMUDGE on git checkout, 9 working-tree mutation kinds before pull / lfs checkout} x transient server faults in one scenario out of three: for one or two victim objects that the step reached first (clone, first checkout, git checkout, lfs fetch, lfs pull) is about to download, the storage GET is answered {503 k times with k <= lfs.transfer.maxretries, 503 maxretries+1 times, 503 for ever, connection reset once or twice, body cut short once or twice} or the batch API reports the object missing once; lfs.transfer.maxretries in {1,2,8} delivered via HOME/-c/--config; later steps (incl. lfs checkout) run with what is left of the script and with the objects a failed step left behind. A command that exits 0 is judged exactly as without faults; a command that exits non-zero while faults were injected is counted, not judged (except never-clobber / fetch-leaves-worktree-alone, which hold for failures too). Rare command shapes run as the LAST operation of a sample of the scenarios (every second scenario, rotating by seed; every scenario of the source repositories with recent commit dates = one in four, commit ages from {0.3,1.5,2.5,5,9,12,30} days plus three 7-9 h old commits on main that rewrite the same two paths; every source also has a commit reachable from a tag only): fetch --all [origin [refs|sha]] (also --json / --dry-run), fetch --recent and lfs.fetchrecentalways with lfs.fetchrecentrefsdays / lfs.fetchrecentcommitsdays in {unset,0,1,3,7} and lfs.fetchrecentremoterefs in {unset,true,false} (+ -I/-X, refs, --json), fetch origin with three arguments incl. a raw commit id, fetch --refetch (in two of three cases with a server that fails for good for 1-2 of the objects), fetch --dry-run, fetch --json, and `git lfs checkout --to <file inside|outside the work tree> --base|--ours|--theirs <path>` in every stage order during a real modify/modify merge conflict on an LFS path of the history or a new file, followed by the usage errors (--to without a stage, two stages). Besides the 8 templates every source repository runs 2 (thorough: 3) scenarios of template 8 (refstore.go), 'objects only in the reference store, nothing linked yet': {clone --reference with the lfs filters unset, GIT_LFS_SKIP_SMUDGE clone --reference, alternates entry appended after the clone, reference repository receives its LFS objects after the clone, clone --no-checkout --reference + git reset --hard} x {full, partial reference store} x first operation {lfs checkout, lfs checkout <paths>, lfs pull, lfs fetch (+ lfs checkout), git checkout <other ref>}, rotating by seed, against a well-behaved server. Template 9 (wide.go): 2 (thorough: 10) dedicated source repositories whose single tree holds 30-150 LFS files with content deliberately duplicated across paths far apart in tree order (the first paths and the last ones, different directories, triples), each with 8 (12) skip-smudge consumers: git lfs pull (plain, with a working-tree mutation, restricted by -I/-X and then completed) or lfs fetch + lfs checkout, with lfs.transfer.batchsize in {1,2,3} x lfs.concurrenttransfers in {1,8} x local store {middle half of the tree local, random half local, empty} x storage GET answers delayed {not, 2 ms each, 0-5 ms pseudo-randomly, 4 ms from the third on}, so that downloads complete while the tree scan of the same pull is still running; two consumers in six meet the fault kind exhausted-object-in-failed-batch instead (faults.go): lfs.transfer.maxretries 1 or 2, batchsize 2 or 3, maxretrydelay 1, at least six objects to download, the GETs of the first one or two objects in tree order answered 503 until their retry budget is spent, batch answers delayed 10 ms, and the batch request that lists such an exhausted object together with other objects answered 429 (once per exhausted object). Template 10 (recentfault.go), two scenarios per source with recent commit dates and one per every second other source, in both tiers: skip-smudge clone of a ref other than main, in half of them a plain fetch, then `git lfs fetch --recent origin <that ref>` or the same with lfs.fetchrecentalways=true (repository configuration or git -c), with and without --json / an empty -I, with lfs.fetchrecentrefsdays in {3,7} (dated sources) or 100000 (every branch is recent), while the storage GET of exactly one object that only a recent ref needs (not in the named ref's tree, not local) fails every time (503 or 404, lfs.transfer.maxretries 1-2); second scenario of the dated sources: lfs.fetchrecentcommitsdays in {1,3,7} and the failing object is a previous version that no fetched tip tree holds. Class = (clone mode, ref kind, filter driver, store incl. how it came to be unlinked / the wide-tree coordinates, configured filter shape, sequence of operations with their option shapes incl. the tail shape and its windows, fault kind + maxretries + step at which it was armed)."
 	run.Assumptions = []string{
 		"selection by include/exclude follows gitignore(5) as documented in git-lfs-fetch(1); the driver's matcher is restricted to the generated pattern forms and cross-checked against git check-ignore",
 		"-I / -X each override only their own configuration key (documented: 'override the respective configuration settings')",
@@ -622,7 +625,7 @@ func main() {
 			}
 			defer src.close()
 			var w2 sync.WaitGroup
-			ns := nscen
+			ns := nscen + recentFaultScenarios(src, run.Seed)
 			if src.wide {
 				ns = nwscen
 			}
